@@ -7,6 +7,7 @@ import (
 	"os"
 	"strings"
 	"sync"
+	"sync/atomic"
 	"time"
 
 	"servitor/pub"
@@ -15,27 +16,40 @@ import (
 )
 
 // Driver owns one ui.State, records every frame and waits for exact quiescence.
-type Driver struct {
-	S      *ui.State
-	mu     sync.Mutex
-	frames []string
-	inCallback int32
-	overlap    bool
+// Frame is one string handed to the output callback, with the terminal size it was drawn for.
+type Frame struct {
+	Text          string
 	Width, Height int
 }
 
+type Driver struct {
+	S          *ui.State
+	mu         sync.Mutex
+	frames     []Frame
+	inCallback int32
+	Overlaps   int32 // times two output callbacks were active at once
+	Emitted    int64
+	width      int64
+	height     int64
+}
+
 func NewDriver(width, height int) *Driver {
-	d := &Driver{Width: width, Height: height}
+	d := &Driver{width: int64(width), height: int64(height)}
 	d.S = ui.NewState(width, height, func(frame string) {
+		if atomic.AddInt32(&d.inCallback, 1) > 1 {
+			atomic.AddInt32(&d.Overlaps, 1)
+		}
 		d.mu.Lock()
-		d.frames = append(d.frames, frame)
+		d.frames = append(d.frames, Frame{frame, int(atomic.LoadInt64(&d.width)), int(atomic.LoadInt64(&d.height))})
 		d.mu.Unlock()
+		atomic.AddInt64(&d.Emitted, 1)
+		atomic.AddInt32(&d.inCallback, -1)
 	})
 	return d
 }
 
 // Frames returns the frames emitted since the last call.
-func (d *Driver) Frames() []string {
+func (d *Driver) Frames() []Frame {
 	d.mu.Lock()
 	defer d.mu.Unlock()
 	out := d.frames
@@ -43,8 +57,10 @@ func (d *Driver) Frames() []string {
 	return out
 }
 
+// Resize must only be called while the UI is settled: frames are tagged with the size in force.
 func (d *Driver) Resize(w, h int) {
-	d.Width, d.Height = w, h
+	atomic.StoreInt64(&d.width, int64(w))
+	atomic.StoreInt64(&d.height, int64(h))
 	d.S.SetWidthHeight(w, h)
 }
 
